@@ -111,7 +111,7 @@ PROPS["C15"] = {
     "level": "proof",
     "trusted_base": COMMON_TB + ["/verif/harness/src/c15.rs: reference tree walk (complete-left-subtree marks per height)"],
     "functions": ["TapTreeBuilder::push_leaf, push_inner_node (hook H5) from an ARBITRARY state satisfying the representation invariant", "BitStack128::push/pop from an arbitrary state"],
-    "bounds": {"quick": "push_inner_node and the bit stack: whole state space (u128 x bool x u8); no bound", "thorough": "push_leaf: whole state space (inductive step, heights 0..=128)"},
+    "bounds": {"quick": "push_inner_node and the bit stack: whole state space (u128 x bool x u8); push_leaf: every state and cursor height 0..=128 with at most 24 levels completed by one leaf", "thorough": "push_leaf: whole state space (inductive step, heights 0..=128, any number of levels completed)"},
     "outside": ["Merkle root / control block computation (TrSpendInfo::nodes_from_tap_tree: heap vectors of nodes; hashing), the tweak (secp), parsing/printing of trees, key translation", "trees with more than 2^8 nodes are only covered through the builder's inductive step, not through spend-info"],
     "assumptions": ["the representation invariant of the builder (marks only at heights 1..=current_height, complete_128 only at height 128) is proved preserved by both steps and holds initially"],
 }
